@@ -535,6 +535,14 @@ CQuiesce(e) ==
     /\ Chk(e, "C18", "every_published_message_delivered_in_order", \A c \in CChans : st.cdel[c] = st.cpub[c])
     /\ UNCHANGED st
 
+\* the same bytes decoded twice in one history give the same outcome (C16)
+SameResult(e) ==
+    /\ Chk(e, "C16", "same_input_same_result",
+           /\ e.out1.r = e.out2.r
+           /\ (e.out1.r = "ok" => (e.out1.n = e.out2.n /\ e.out1.ch = e.out2.ch /\ e.out1.f = e.out2.f))
+           /\ (e.out1.r = "exc" => e.out1.type = e.out2.type))
+    /\ UNCHANGED st
+
 ToggleArg(a) == IF a = "false" THEN FALSE ELSE TRUE      \* "true", "noarg" -> TRUE
 
 \* ---- the object world (Api.tla): identity, aliasing, purity (C16, C12) -----------
@@ -623,6 +631,7 @@ Step == /\ l <= Len(Events)
              [] e.a = "CharBlock"   -> CharBlock(e)
              [] e.a = "Observe"     -> Observe(e)
              [] e.a = "SameBytes"   -> SameBytes(e)
+             [] e.a = "SameResult"  -> SameResult(e)
              [] e.a = "CReset"      -> CReset(e)
              [] e.a = "CPublish"    -> CPublish(e)
              [] e.a = "CFrame"      -> CFrame(e)
